@@ -432,4 +432,18 @@ Proof.
     cbn [filter]. rewrite (Hno o (or_introl eq_refl)). apply IH. intros o' Ho'. apply Hno. right. exact Ho'.
 Qed.
 
+(* a histogram family is exposed as a Prometheus histogram (TYPE line and series) exactly when buckets
+   apply to the METRIC name, for every unit-suffix configuration: the family name plays no role *)
+Theorem exposed_iff_buckets_apply san global name ovs usfx unit :
+  let '(fam, ty, dist) := render_family O (db_new O true san global ovs) usfx unit (eff_key san name) in
+  dist = spec_choice O san global name ovs
+  /\ (ty = true <-> spec_choice O san global name ovs <> None)
+  /\ (ty = true <-> dist <> None)
+  /\ fam = family_name usfx unit (eff_key san name).
+Proof.
+  unfold render_family.
+  pose proof (type_iff_histogram O (db_new O true san global ovs) (eff_key san name)) as T.
+  rewrite model_meets_spec in *. repeat split; try apply T; auto.
+Qed.
+
 End PrecProofs.
